@@ -46,7 +46,7 @@ func GenHostile(t *rapid.T) HostileCase {
 		case "malformed":
 			st.Variant = rapid.SampledFrom([]string{"badprefix", "oversize", "garbage", "shortbody", "type106", "emptybody"}).Draw(t, "variant")
 		case "fault":
-			st.Variant = rapid.SampledFrom([]string{"close", "ioerr", "ctxcancel"}).Draw(t, "variant")
+			st.Variant = rapid.SampledFrom([]string{"close", "ioerr", "neterr", "localclose", "ctxcancel"}).Draw(t, "variant")
 		}
 		return st
 	})
@@ -182,8 +182,12 @@ func RunHostile(c HostileCase) harn.Result {
 			i := st.Which % len(held)
 			p := held[i]
 			held = append(held[:i], held[i+1:]...)
-			if p.finished {
+			if p.finished && !p.abandoned {
 				continue
+			}
+			if p.abandoned {
+				// the late reply to a call its caller has given up on: must not disturb anybody
+				classes["late_reply_to_cancelled_call"] = true
 			}
 			var m *refwire.Msg
 			switch st.Variant {
@@ -336,6 +340,12 @@ func RunHostile(c HostileCase) harn.Result {
 			case "ioerr":
 				r.cli.FailReadNow(memconn.ErrInjected)
 				r.cli.FailWriteNow(memconn.ErrInjected)
+			case "neterr":
+				// a permanent failure reported as a net.Error (what a TCP reset looks like)
+				r.cli.FailReadNow(memconn.ErrReset)
+				r.cli.FailWriteNow(memconn.ErrReset)
+			case "localclose":
+				r.cli.Close()
 			case "ctxcancel":
 				r.cancel()
 			}
